@@ -89,10 +89,23 @@ structure Locker where
   last : Res := .never
 deriving DecidableEq, Repr
 
+/-- the OS account a locker's process runs as.  `name` is what `get_user_name()`
+reports (`$LOGNAME`, recorded in the info file and compared by
+`is_lock_holder_known_dead`); `uid` is the numeric user id the kernel checks
+signal permission against (0 = root).  The two are independent: `su` without
+`-l` keeps `LOGNAME`.  A bare numeral `n` denotes the account with LOGNAME `n`
+running as root. -/
+structure Account where
+  name : Nat
+  uid : Nat := 0
+deriving DecidableEq, Repr
+
+instance {n : Nat} : OfNat Account n := ⟨{ name := n }⟩
+
 structure Cfg where
   /-- host name; 0 is the literal name `localhost` -/
   host : Nat
-  user : Nat
+  user : Account
   /-- `locks.steal_dead` -/
   steal : Bool
 deriving DecidableEq, Repr
@@ -101,12 +114,96 @@ deriving DecidableEq, Repr
 def knownDead (hostEq isLocalhost userEq pidRecorded pidDead : Bool) : Bool :=
   hostEq && !isLocalhost && userEq && pidRecorded && pidDead
 
-/-- is the holder recorded in `x` known dead, seen from locker `me`?  The pid of a
-locker's process is dead iff the locker crashed (no pid reuse, host names
-identify machines — the code's own caveat). -/
+/-! ### `is_local_pid_dead`: the errno decision on `kill(pid, 0)` -/
+
+/-- result of `nix::sys::signal::kill(pid, None)`: success, or an errno.  `other`
+stands for every errno except `ESRCH` and `EPERM`. -/
+inductive KillRes
+  | ok | esrch | eperm | other
+deriving DecidableEq, Repr
+
+/-- `crates/osutils: is_local_pid_dead`, the `match` on the result of `kill(pid, None)`:
+only `ESRCH` ("no such process") means dead; `Ok` (exists, we may signal it),
+`EPERM` (exists, owned by somebody else) and anything else (don't know) mean
+not known dead. -/
+def pidDeadOf : KillRes → Bool
+  | .ok => false
+  | .esrch => true
+  | .eperm => false
+  | .other => false
+
+/-- POSIX `kill(2)` with signal 0 on a positive pid: existence is checked first
+(`ESRCH`), then permission (`EPERM`); no signal is delivered -/
+def killZero (procExists permitted : Bool) : KillRes :=
+  if !procExists then .esrch else if permitted then .ok else .eperm
+
+/-- may a process of locker `me` signal a process of locker `o`?  Root may signal
+everybody; otherwise the uids must agree (plain `setuid` processes: real =
+effective = saved uid). -/
+def maySignal (cfg : Nat → Cfg) (me o : Nat) : Bool :=
+  (cfg me).user.uid == 0 || (cfg me).user.uid == (cfg o).user.uid
+
+/-- what `kill(pid of locker o, 0)` returns when called by locker `me`.  The
+process of a locker exists iff the locker has not crashed (no pid reuse). -/
+def probe (cfg : Nat → Cfg) (crashed : Nat → Bool) (me o : Nat) : KillRes :=
+  killZero (!crashed o) (maySignal cfg me o)
+
+/-- is the holder recorded in `x` known dead, seen from locker `me`?  Host and
+LOGNAME are compared as recorded; the pid is probed with `kill(pid, 0)` from the
+process of `me` (host names identify machines — the code's own caveat). -/
 def stealable (cfg : Nat → Cfg) (crashed : Nat → Bool) (me : Nat) (x : Nonce) : Bool :=
   knownDead ((cfg x.owner).host == (cfg me).host) ((cfg x.owner).host == 0)
-    ((cfg x.owner).user == (cfg me).user) true (crashed x.owner)
+    ((cfg x.owner).user.name == (cfg me).user.name) true (pidDeadOf (probe cfg crashed me x.owner))
+
+/-! ### T1 targets: the two Rust decision functions as data
+
+`harness/checks/c26.py: extract` transcribes the arms of the `match` in
+`is_local_pid_dead` and the guard chain of `is_lock_holder_known_dead` from the
+current Rust source into `Generated/C26.lean`; `Props/C26T1.lean` proves the
+transcriptions equal to `pidDeadOf` / `knownDead`. -/
+
+/-- pattern of a `match` arm over `Result<(), Errno>` -/
+inductive ArmPat
+  | ok | esrch | eperm | anyErr | any
+deriving DecidableEq, Repr
+
+def ArmPat.covers : ArmPat → KillRes → Bool
+  | .ok, .ok => true
+  | .esrch, .esrch => true
+  | .eperm, .eperm => true
+  | .anyErr, .esrch | .anyErr, .eperm | .anyErr, .other => true
+  | .any, _ => true
+  | _, _ => false
+
+/-- first matching arm wins; `none` = no arm matches (does not compile in Rust) -/
+def evalArms : List (ArmPat × Bool) → KillRes → Option Bool
+  | [], _ => none
+  | (p, v) :: rest, r => if p.covers r then some v else evalArms rest r
+
+/-- condition of an `if … { return … }` guard in `is_lock_holder_known_dead` -/
+inductive Guard
+  | hostNe | hostEq | isLocalhost | notLocalhost | userNe | userEq | pidNone | pidSome
+deriving DecidableEq, Repr
+
+def Guard.holds (hostEq isLocalhost userEq pidRecorded : Bool) : Guard → Bool
+  | .hostNe => !hostEq | .hostEq => hostEq
+  | .isLocalhost => isLocalhost | .notLocalhost => !isLocalhost
+  | .userNe => !userEq | .userEq => userEq
+  | .pidNone => !pidRecorded | .pidSome => pidRecorded
+
+/-- what the function evaluates to after the guards: a literal, or `is_local_pid_dead(pid)` -/
+inductive Tail
+  | lit (b : Bool) | pidDead
+deriving DecidableEq, Repr
+
+/-- early-return chain: the first guard that holds returns its value; otherwise the tail -/
+def evalGuards (gs : List (Guard × Bool)) (tail : Tail)
+    (hostEq isLocalhost userEq pidRecorded pidDead : Bool) : Bool :=
+  match gs with
+  | [] => (match tail with | .lit b => b | .pidDead => pidDead)
+  | (g, v) :: rest =>
+    if g.holds hostEq isLocalhost userEq pidRecorded then v
+    else evalGuards rest tail hostEq isLocalhost userEq pidRecorded pidDead
 
 inductive Peek
   | none | ok (n : Nonce) | corrupt (t : Nat)
